@@ -860,7 +860,7 @@ fn c14(tier: &str, thorough: bool) -> i32 {
 fn c07(tier: &str, thorough: bool) -> i32 {
     let ctx = leak(Ctx::new("C07", tier, level_mc(), "e1h", &["handle"]));
     common_assumptions(ctx);
-    ctx.assume("a handle's own stream is never removed or overwritten through another path while the handle is held (the property speaks of handles whose stream exists)");
+    ctx.assume("in the main passes a handle's own stream is never removed or overwritten through another path while the handle is held (the property speaks of handles whose stream exists); a separate pass removes held streams and judges only the effect on every other object");
     ctx.set_rule("start states = every distinct image reachable by create_stream/remove_stream over the sibling names (all sibling-tree shapes x directory slot assignments the library produces); handles on every ordered choice of <= 2 streams; stream contents of 300/5000/200 bytes and, in a second pass, 4095/4096/64 bytes (both sides of the mini-stream cutoff); in a third pass handles are held on all of four (thorough: five) 64-byte streams and every sequence over {set_len(0), append 128, flush} per handle is run; every action sequence up to the depth over handle ops (write, append, flush, set_len, read-all) and structural mutations of other entries (remove, overwrite, create stream/storage); handle results checked at every call; at the forced quiescent end: full dump vs model, independent checker and parse, strict reopen");
     let mut seqs = 0u64;
     let mut acts = 0u64;
@@ -884,6 +884,14 @@ fn c07(tier: &str, thorough: bool) -> i32 {
         let (names, depth): (&[&str], usize) = if thorough { (&["a", "b", "c", "d", "e"], 5) } else { (&["a", "b", "c", "d"], 4) };
         let st = crate::e1h::explore_many(ctx, v, names, depth);
         ctx.note(format!("v{} handles on all of {} one-mini-sector streams, depth {}: sequences={} actions={}", v, names.len(), depth, st.sequences, st.actions));
+        seqs += st.sequences;
+        acts += st.actions;
+    }
+    // handles that outlive their stream
+    for v in [3u16, 4] {
+        let depth = if thorough { 5 } else { 4 };
+        let st = crate::e1h::explore_stale(ctx, v, depth);
+        ctx.note(format!("v{} handles outliving their stream, depth {}: sequences={} actions={}", v, depth, st.sequences, st.actions));
         seqs += st.sequences;
         acts += st.actions;
     }
